@@ -53,7 +53,7 @@ package crypto
 
 // Version 1 is keccak256, versions 2, 3, 4 are argon2id with 1, 16, 32 KiB; anything else panics.
 //@ func VersionHash
-//@   requires v >= 1 && v <= 4
+//@   requires[C14] v >= 1 && v <= 4
 //@   ensures[C14] @algo (v == 2 ==> argon_mem == 1) && (v == 3 ==> argon_mem == 16) && (v == 4 ==> argon_mem == 32) && (v == 1 ==> argon_mem == old(argon_mem))
 //@   ensures[C14] @len len(result) == 32 && fresh(result)
 //@   ensures[C14] @value oneseed(data) ==> bigofbytes(arr(result), off(result), 32) == vhash(v, seedw(data[0], 0), seedw(data[0], 8), seedw(data[0], 16), seedw(data[0], 24), seedw(data[0], 32))
